@@ -8,6 +8,7 @@ package vnd
 import (
 	"encoding/json"
 	"fmt"
+	"github.com/rs/zerolog"
 	"math/big"
 	"os"
 	"runtime"
@@ -118,8 +119,8 @@ func I64(name string) int64 {
 	}
 	return int64(v.Uint64())
 }
-func Int(name string) int       { return int(I64(name)) }
-func F64(name string) float64   { return 0 }
+func Int(name string) int     { return int(I64(name)) }
+func F64(name string) float64 { return 0 }
 func IntRange(name string, lo, hi int) int {
 	v := Int(name)
 	if v < lo || v > hi {
@@ -168,6 +169,18 @@ func Sleep(d time.Duration) {
 }
 
 // NowNs is the (virtual) clock.
+// TraceLogging reports whether the run has trace-level logging on (harness option LogEnabled).
+func TraceLogging() bool { return get("vnd.trace-logging").Sign() != 0 }
+
+// LogLevel is the log level harnesses build their services with: disabled, or trace when
+// TraceLogging (the engine models every zerolog call as a no-op and only Event.Enabled() differs).
+func LogLevel() zerolog.Level {
+	if TraceLogging() {
+		return zerolog.TraceLevel
+	}
+	return zerolog.Disabled
+}
+
 func NowNs() int64 { return time.Now().UnixNano() }
 
 // Quiesce lets every other goroutine run until none can progress and returns
